@@ -105,8 +105,10 @@ def paren_depth(tokens: list[str]) -> int:
 	return m
 
 
-def gen_sentences(world: PyWorld, n: int, max_tokens: int, max_paren: int) -> list[tuple[str, list[str], str]]:
-	"""(level, derived tokens, text) with exact token agreement; bounded size (the engine is exponential in bracket nesting)."""
+def gen_sentences(world: PyWorld, n: int, max_tokens: int, max_paren: int, keep_inexact: bool = False) -> list[tuple[str, list[str], str]]:
+	"""(level, derived tokens, text); bounded size (the engine is exponential in bracket nesting). By default only texts whose real
+	token strings equal the derivation; with `keep_inexact` also the plainly spaced rendering of a derivation the tokenizer does not
+	give back (none on the pinned tree — a tokenizer regression shows up there, and the search judges the text itself)."""
 	out = []
 	attempts = 0
 	while len(out) < n and attempts < n * 6:
@@ -116,9 +118,9 @@ def gen_sentences(world: PyWorld, n: int, max_tokens: int, max_paren: int) -> li
 		if len(toks) > max_tokens or paren_depth(toks) > max_paren:
 			continue
 		text, exact = world.text_of(toks)
-		if not exact:
+		if not exact and not keep_inexact:
 			continue
-		out.append((level, toks, text))
+		out.append((level if exact else f'{level}-inexact', toks, text))
 	return out
 
 
@@ -156,12 +158,12 @@ def stream_engine_py(ctx: Ctx) -> Stream:
 	rng = ctx.sub_rng('engine-py')
 	world = PyWorld(rng)
 	cases = corpus_cases(world)
-	sentences = gen_sentences(world, ctx.scale(170, 2500), ctx.scale(70, 110), 3)
+	sentences = gen_sentences(world, ctx.scale(170, 2000), ctx.scale(70, 110), 3)
 	for level, toks, text in sentences:
 		c = engine_case(world, {'kind': f'sentence-{level}'}, text)
 		if c:
 			cases.append(c)
-	for level, toks, text in sentences[:ctx.scale(130, 2000)]:
+	for level, toks, text in sentences[:ctx.scale(130, 1600)]:
 		for _ in range(2):
 			mtoks, mk = gramlib.mutate_tokens(toks, rng, world.vocabulary)
 			if rng.random() < 0.25:
@@ -237,7 +239,7 @@ def stream_engine_random(ctx: Ctx) -> Stream:
 	from rogw.tranp.implements.syntax.tranp.token import Token, TokenTypes
 	rng = ctx.sub_rng('engine-random')
 	cases = []
-	for _ in range(ctx.scale(150, 2500)):
+	for _ in range(ctx.scale(150, 2000)):
 		tree, strings, regexps_used = safe_grammar(rng)
 		rules = Rules.from_ast(tree)
 		regexps = gen_rules.regexps_of(rules)
@@ -397,7 +399,7 @@ def search_cpython(ctx: Ctx) -> SearchResult:
 	hist: Counter[str] = Counter()
 	seen: set[str] = set()
 	# defect-candidate witnesses and past findings first
-	for level, toks, text in gen_sentences(world, ctx.scale(700, 7000), ctx.scale(70, 120), 3):
+	for level, toks, text in gen_sentences(world, ctx.scale(700, 6000), ctx.scale(70, 120), 3, keep_inexact=True):
 		res.cases += 1
 		if text not in seen:
 			seen.add(text)
@@ -448,7 +450,7 @@ def search_mutated(ctx: Ctx) -> SearchResult:
 			if fn.endswith('.json'):
 				with open(os.path.join(d, fn), encoding='utf-8') as f:
 					texts.extend(('corpus', t) for t in json.load(f).get('texts', []))
-	for level, toks, text in gen_sentences(world, ctx.scale(350, 3000), ctx.scale(60, 100), 3):
+	for level, toks, text in gen_sentences(world, ctx.scale(350, 2500), ctx.scale(60, 100), 3):
 		for _ in range(2):
 			mtoks, mk = gramlib.mutate_tokens(toks, rng, world.vocabulary)
 			if paren_depth(mtoks) <= 4:
